@@ -2570,7 +2570,15 @@ void abbreviation_from_bracket(const char * source, scratch_pad * scratch, token
 
 
 void read_table_column_alignments(const char * source, token * table, scratch_pad * scratch) {
-	token * walker = table->child->child;
+	token * walker = table->child;
+
+	// The header is not necessarily the first child (inside a list item
+	// the table can start with what is left of the item's marker)
+	while (walker && walker->type != BLOCK_TABLE_HEADER) {
+		walker = walker->next;
+	}
+
+	walker = walker ? walker->child : NULL;
 
 	// Rows may hold more cells than the separator line has columns -- those
 	// cells read alignment entries that this table never sets
